@@ -33,6 +33,13 @@ def load_cases(prop):
                 if exp['property'] == prop:
                     cases.append(dict(name='seeded-' + name, kind='mutant', rule=exp['rule'], key=exp.get('key', ''),
                                       edits=[dict(diff=os.path.join('seeded', name, 'patch.diff'))]))
+    # behaviour-preserving changes written by independent sub-agents: every check must stay silent on each of them
+    benign = os.path.join(VERIF_DIR, 'benign')
+    if os.path.isdir(benign):
+        for name in sorted(os.listdir(benign)):
+            if os.path.exists(os.path.join(benign, name, 'patch.diff')):
+                cases.append(dict(name='benign-' + name, kind='twin',
+                                  edits=[dict(diff=os.path.join('benign', name, 'patch.diff'))]))
     return cases
 
 
